@@ -91,6 +91,9 @@ type analyzer struct {
 	// getters: methods whose body is `return recv.field`: callers get an alias of the field's backing store
 	getters       map[*types.Func]aliasInfo
 	gettersByName map[string][]aliasInfo
+	// projections: methods on slice / map types whose body is `return recv[...]`: the result aliases whatever the
+	// receiver expression at the call site aliases (envs.locationNameLookup.lookup)
+	projections map[*types.Func]bool
 }
 
 // aliasInfo: a slice / map value that shares its backing store with a field of a shared type
@@ -462,7 +465,7 @@ func (c *funcCtx) sharedRef(e ast.Expr) (aliasInfo, bool) {
 	}
 	if ce, ok := e.(*ast.CallExpr); ok {
 		sel, ok := ast.Unparen(ce.Fun).(*ast.SelectorExpr)
-		if !ok || len(ce.Args) != 0 {
+		if !ok {
 			return aliasInfo{}, false
 		}
 		ms := c.info.Selections[sel]
@@ -473,6 +476,9 @@ func (c *funcCtx) sharedRef(e ast.Expr) (aliasInfo, bool) {
 		if fo == nil {
 			return aliasInfo{}, false
 		}
+		if c.a.projections[fo.Origin()] {
+			return c.sharedElemRef(sel.X)
+		}
 		kind, ok := c.rootKind(sel.X)
 		if !ok {
 			return aliasInfo{}, false
@@ -480,7 +486,7 @@ func (c *funcCtx) sharedRef(e ast.Expr) (aliasInfo, bool) {
 		if g, ok := c.a.getters[fo.Origin()]; ok {
 			return aliasInfo{g.Type, g.Field, kind}, true
 		}
-		if sig, ok := fo.Type().(*types.Signature); ok && sig.Recv() != nil {
+		if sig, ok := fo.Type().(*types.Signature); ok && sig.Recv() != nil && len(ce.Args) == 0 {
 			if _, isIface := sig.Recv().Type().Underlying().(*types.Interface); isIface {
 				if gs := c.a.gettersByName[fo.Name()]; len(gs) > 0 {
 					return aliasInfo{gs[0].Type, gs[0].Field, kind}, true
@@ -505,6 +511,24 @@ func (c *funcCtx) sharedRef(e ast.Expr) (aliasInfo, bool) {
 		return aliasInfo{}, false
 	}
 	return aliasInfo{typeName(n), f, kind}, true
+}
+
+// sharedElemRef: like sharedRef for a receiver expression that may be an element of a shared slice / map field
+// (h.levelLookups[i]) or a local alias of one
+func (c *funcCtx) sharedElemRef(e ast.Expr) (aliasInfo, bool) {
+	e = ast.Unparen(e)
+	for {
+		switch x := e.(type) {
+		case *ast.IndexExpr:
+			e = ast.Unparen(x.X)
+			continue
+		case *ast.SliceExpr:
+			e = ast.Unparen(x.X)
+			continue
+		}
+		break
+	}
+	return c.sharedRef(e)
 }
 
 // recordAddr: the address of e escapes into a call
@@ -1089,6 +1113,7 @@ func main() {
 	// plain getters of slice / map fields of shared types
 	a.getters = map[*types.Func]aliasInfo{}
 	a.gettersByName = map[string][]aliasInfo{}
+	a.projections = map[*types.Func]bool{}
 	for _, p := range a.pkgs {
 		for _, f := range p.Syntax {
 			for _, d := range f.Decls {
@@ -1100,14 +1125,47 @@ func main() {
 				if !ok || len(rs.Results) != 1 {
 					continue
 				}
-				sel, ok := ast.Unparen(rs.Results[0]).(*ast.SelectorExpr)
+				rid := recvIdent(fd)
+				if rid == nil {
+					continue
+				}
+				// strip element / re-slicing steps: `return r.f[k]`, `return r[k]`, `return r.f[1:]`
+				res := ast.Unparen(rs.Results[0])
+				indexed := false
+				for {
+					if ix, ok := res.(*ast.IndexExpr); ok {
+						res, indexed = ast.Unparen(ix.X), true
+						continue
+					}
+					if sx, ok := res.(*ast.SliceExpr); ok {
+						res, indexed = ast.Unparen(sx.X), true
+						continue
+					}
+					break
+				}
+				if id, ok := res.(*ast.Ident); ok && indexed && id.Name == rid.Name {
+					switch p.TypesInfo.TypeOf(rs.Results[0]).Underlying().(type) {
+					case *types.Slice, *types.Map:
+						if fo, _ := p.TypesInfo.Defs[fd.Name].(*types.Func); fo != nil {
+							a.projections[fo] = true
+						}
+					}
+					continue
+				}
+				sel, ok := res.(*ast.SelectorExpr)
 				if !ok {
 					continue
 				}
-				rid := recvIdent(fd)
 				xid, ok := ast.Unparen(sel.X).(*ast.Ident)
-				if rid == nil || !ok || xid.Name != rid.Name {
+				if !ok || xid.Name != rid.Name {
 					continue
+				}
+				if rt := p.TypesInfo.TypeOf(rs.Results[0]); rt == nil {
+					continue
+				} else if _, isS := rt.Underlying().(*types.Slice); !isS {
+					if _, isM := rt.Underlying().(*types.Map); !isM {
+						continue
+					}
 				}
 				fs := p.TypesInfo.Selections[sel]
 				if fs == nil || fs.Kind() != types.FieldVal {
